@@ -87,6 +87,14 @@ type Sched struct {
 
 var S *Sched
 
+// CurEvents returns the lock events ("L","l","U","u") of the running logical thread so far.
+func CurEvents() string {
+	if S != nil && S.cur != nil {
+		return S.cur.Events
+	}
+	return ""
+}
+
 func logEvent(e string) {
 	if S != nil && S.cur != nil {
 		S.cur.Events += e
